@@ -299,7 +299,9 @@ class Session:
         if info is not None and info.get("confirmed_on_real_code"):
             ob.status = "failed"
             return
-        if ob.id.split("#")[0] in self.baseline():
+        if ob.id.split("#")[0] in self.baseline() or ob.id.split("#")[0].endswith("/within-verified-subset"):
+            # obligations that are discharged on the unchanged tree (every function under contract is inside the
+            # verified subset there): failing now = reported, with the verifier's reason, as no-failing-input-found
             ob.status = "failed"
             if ob.replay is None:
                 self._attach_replay(ob, None, model, solver_out=f"{backend}: {reason}; obligation is discharged on the unchanged tree")
